@@ -1,0 +1,216 @@
+//! Thin wrappers that expose crate-private EBR components to a verification harness
+//! (cargo feature `circ_verif`). The wrapped code is the real code.
+
+use core::sync::atomic::Ordering;
+
+use super::internal::Local;
+use super::sync::list::{Entry, IsElement, IterError, List};
+use super::sync::queue::Queue;
+use super::{Guard, RawShared};
+
+pub use super::collector::{Collector, LocalHandle};
+pub use super::default::default_collector;
+pub use super::guard::unprotected;
+
+pub(crate) unsafe fn set_knobs_raw(max_objects: usize, manual: usize) {
+    super::internal::verif_set_knobs(max_objects, manual);
+}
+
+/// Sets the global epoch of a collector. Only legal before its first participant registers.
+pub fn set_global_epoch(collector: &Collector, value: usize) {
+    collector.global.epoch.verif_set(value);
+}
+
+/// Reads the global epoch value of a collector without passing through a yield point.
+pub fn peek_global_epoch(collector: &Collector) -> usize {
+    collector.global.epoch.verif_peek() >> 1
+}
+
+/// Address of the global epoch word of a collector.
+pub fn global_epoch_addr(collector: &Collector) -> usize {
+    collector.global.epoch.verif_addr()
+}
+
+/// Reads the announced epoch, guard count and handle count of a participant.
+///
+/// # Safety
+///
+/// `local` must be 0 or the address of a participant that has not been freed.
+pub unsafe fn peek_local(local: usize) -> crate::verif::LocalPeek {
+    match (local as *const Local).as_ref() {
+        None => crate::verif::LocalPeek {
+            local: 0,
+            epoch_word: 0,
+            guard_count: 0,
+            handle_count: 0,
+        },
+        Some(l) => {
+            let (epoch_word, guard_count, handle_count) = l.verif_peek();
+            crate::verif::LocalPeek {
+                local,
+                epoch_word,
+                guard_count,
+                handle_count,
+            }
+        }
+    }
+}
+
+/// Address of the participant behind a handle.
+pub fn local_of_handle(handle: &LocalHandle) -> usize {
+    handle.local as usize
+}
+
+/// `Guard::defer_unchecked`.
+///
+/// # Safety
+///
+/// As for `Guard::defer_unchecked`.
+pub unsafe fn defer<F: FnOnce()>(guard: &Guard, f: F) {
+    guard.defer_unchecked(f)
+}
+
+/// `Global::try_advance` through the guard's participant. Returns the epoch value it returns.
+pub fn try_advance(guard: &Guard) -> usize {
+    match unsafe { guard.local.as_ref() } {
+        Some(local) => local.global().try_advance(guard).value(),
+        None => 0,
+    }
+}
+
+/// `Global::collect` through the guard's participant.
+pub fn collect(guard: &Guard) {
+    if let Some(local) = unsafe { guard.local.as_ref() } {
+        local.global().collect(guard)
+    }
+}
+
+/// The collector's Michael-Scott queue.
+pub struct VQueue<T> {
+    inner: Queue<T>,
+}
+
+impl<T: Sync> VQueue<T> {
+    /// `Queue::new`
+    pub fn new() -> Self {
+        Self {
+            inner: Queue::new(),
+        }
+    }
+    /// `Queue::push`
+    pub fn push(&self, t: T, guard: &Guard) {
+        self.inner.push(t, guard)
+    }
+    /// `Queue::try_pop`
+    pub fn try_pop(&self, guard: &Guard) -> Option<T> {
+        self.inner.try_pop(guard)
+    }
+    /// `Queue::try_pop_if`
+    pub fn try_pop_if<F: Fn(&T) -> bool>(&self, f: F, guard: &Guard) -> Option<T> {
+        self.inner.try_pop_if(f, guard)
+    }
+}
+
+impl<T: Sync> Default for VQueue<T> {
+    fn default() -> Self {
+        Self::new()
+    }
+}
+
+/// Element type for [`VList`].
+pub struct VElem {
+    entry: Entry,
+    /// harness-chosen identity
+    pub id: usize,
+}
+
+impl IsElement<VElem> for VElem {
+    fn entry_of(e: &VElem) -> &Entry {
+        &e.entry
+    }
+
+    unsafe fn element_of(entry: &Entry) -> &VElem {
+        let off = memoffset::offset_of!(VElem, entry);
+        &*((entry as *const Entry as usize - off) as *const VElem)
+    }
+
+    unsafe fn finalize(entry: &Entry, guard: &Guard) {
+        let elem = Self::element_of(entry);
+        crate::verif::ev(crate::verif::kind::LIST_FINALIZE, elem.id, 0, 0);
+        guard.defer_destroy(RawShared::from(elem as *const VElem));
+    }
+}
+
+/// Outcome of one [`VList::traverse`].
+pub struct Traversal {
+    /// ids visited, in order (over all restarts)
+    pub visited: Vec<usize>,
+    /// number of times the iteration reported a stall
+    pub stalls: usize,
+}
+
+/// The participant registry's lock-free list, with a harness element type.
+pub struct VList {
+    inner: List<VElem>,
+}
+
+/// Handle to an element inserted into a [`VList`].
+#[derive(Clone, Copy)]
+pub struct VElemRef(*const VElem);
+unsafe impl Send for VElemRef {}
+
+impl VList {
+    /// `List::new`
+    pub fn new() -> Self {
+        Self { inner: List::new() }
+    }
+
+    /// Allocates an element and `List::insert`s it.
+    pub fn insert(&self, id: usize, guard: &Guard) -> VElemRef {
+        let elem = RawShared::from_owned(VElem {
+            entry: Entry::default(),
+            id,
+        });
+        unsafe { self.inner.insert(elem, guard) };
+        VElemRef(elem.as_raw())
+    }
+
+    /// `Entry::delete`
+    ///
+    /// # Safety
+    ///
+    /// Each element may be deleted once, while the list is alive.
+    pub unsafe fn delete(&self, e: VElemRef, guard: &Guard) {
+        (*e.0).entry.delete(guard)
+    }
+
+    /// One pass of `List::iter`, as `try_advance` performs it: stops at the first stall if
+    /// `stop_on_stall`, otherwise keeps iterating (the iterator restarts from the head).
+    pub fn traverse(&self, stop_on_stall: bool, guard: &Guard) -> Traversal {
+        let mut t = Traversal {
+            visited: Vec::new(),
+            stalls: 0,
+        };
+        for item in self.inner.iter(guard) {
+            match item {
+                Ok(e) => t.visited.push(e.id),
+                Err(IterError::Stalled) => {
+                    t.stalls += 1;
+                    if stop_on_stall {
+                        break;
+                    }
+                }
+            }
+        }
+        t
+    }
+}
+
+impl Default for VList {
+    fn default() -> Self {
+        Self::new()
+    }
+}
+
+#[allow(dead_code)]
+fn _orderings_used(_: Ordering) {}
